@@ -1,6 +1,7 @@
 /-
 C05 driver.  Case lines:
   tbs  NAME CLS TYPE ALG LABELS ORIGTTL EXP INC TAG SIGNER REC*   → `ok HEX` | `err` | `panic …`
+  tbsfixed …same…  → the same for the model of the repaired code (Tbs.tbsFixed)
   spec NAME CLS TYPE ALG LABELS ORIGTTL EXP INC TAG SIGNER REC*   → `some HEX` | `none`   (Spec.signedData)
   rdata TYPE RDATA                                                    → `KEYHEX CANONHEX|none`
   detname NAME LABELS                                              → outcome of determine_name
@@ -70,6 +71,10 @@ def handle (toks : List String) : Option String :=
   | "tbs" :: rest => do
     let c ← parseCase rest
     pure (showOutcome toHex (tbsImpl c.name c.cls c.input c.records))
+  | "tbsfixed" :: rest => do
+    -- model of the repaired TBS::new (repo-patches/C05-tbs-canonical-order.diff)
+    let c ← parseCase rest
+    pure (showOutcome toHex (tbsFixed c.name c.cls c.input c.records))
   | "spec" :: rest => do
     let c ← parseCase rest
     let rrset := collect c.name c.cls c.input c.records
